@@ -190,31 +190,28 @@ Proof.
 Qed.
 
 (** ** Non-vacuity on the groups and systems regenerated from /repo (T1) *)
-Definition dflt (qk : quirks) : sstate * res unit :=
-  build_state qk default_reg default_raw default_groups default_systems default_defaults.
-
 Example C14_default_state_nonvacuous :
-  (dflt faithful).2 = Ok tt
-  ∧ all_groups_walk (ss_groups (dflt faithful).1) = true          (* every walk ends within fuel_of *)
-  ∧ all_single_root (dflt faithful).1 = true                       (* the guard of base_units_only_declared *)
-  ∧ in_members (ss_groups (dflt faithful).1) "AvoirdupoisUK" "UK_ton" = true
-  ∧ in_members (ss_groups (dflt faithful).1) "AvoirdupoisUK" "pound" = true      (* inherited from Avoirdupois *)
-  ∧ in_members (ss_groups (dflt faithful).1) "Avoirdupois" "UK_ton" = false
-  ∧ in_members (ss_groups (dflt faithful).1) "root" "UK_ton" = true                 (* transitively *)
-  ∧ in_members (ss_groups (dflt faithful).1) "international" "meter" = true         (* orphans land in the default group *)
-  ∧ in_members (ss_groups (dflt faithful).1) "international" "pound" = false
-  ∧ in_sys_members faithful (dflt faithful).1 "imperial" "imperial_pint" = true
-  ∧ in_sys_members faithful (dflt faithful).1 "imperial" "meter" = false.
-Proof. repeat split; vm_compute; reflexivity. Qed.
+  ( match default_built.2 with Ok _ => true | Err _ => false end
+    && all_groups_walk (ss_groups default_state)                (* every walk ends within fuel_of *)
+    && all_single_root default_state                             (* the guard of base_units_only_declared *)
+    && in_members default_warm "AvoirdupoisUK" "UK_ton"
+    && in_members default_warm "AvoirdupoisUK" "pound"          (* inherited from Avoirdupois *)
+    && negb (in_members default_warm "Avoirdupois" "UK_ton")
+    && in_members default_warm "root" "UK_ton"                  (* transitively *)
+    && in_members default_warm "international" "meter"          (* orphans land in the default group *)
+    && negb (in_members default_warm "international" "pound")
+    && in_sys_members faithful default_state "imperial" "imperial_pint"
+    && negb (in_sys_members faithful default_state "imperial" "meter") ) = true.
+Proof. vm_cast_no_check (eq_refl true). Qed.
 Example C14_default_base_units_nonvacuous :
-  base_is (get_base_units faithful default_reg (dflt faithful).1 {[ "foot" := 1%Qc ]} true (Some "cgs")).2
-          (mkq 762 25) [("centimeter", mkq 1 1)] = true
-  ∧ base_is (get_base_units faithful default_reg (set_default faithful (dflt faithful).1 (Some "imperial")).1
-               (mkuc [("pound", mkq 1 1); ("gallon", mkq (-1) 1)]) true None).2
-          (mkq 15552 77) [("pound", mkq 1 1); ("yard", mkq (-3) 1)] = true
-  ∧ compat_is (get_compatible faithful default_reg (dimeq_table default_reg) (dflt faithful).1 {[ "meter" := 1%Qc ]} (Some "imperial")).2
-          ["thou"; "inch"; "hand"; "foot"; "yard"; "mile"] = true
-  ∧ name_is (sys_attr default_reg (dflt faithful).1 "imperial" "pint") "imperial_pint" = true
-  ∧ name_is (sys_attr default_reg (dflt faithful).1 "US" "pint") "pint" = true
-  ∧ name_is (sys_attr default_reg (dflt faithful).1 "US" "ton") "US_ton" = true.
-Proof. repeat split; vm_compute; reflexivity. Qed.
+  ( base_is (get_base_units faithful default_reg default_state {[ "foot" := 1%Qc ]} true (Some "cgs")).2
+            (mkq 762 25) [("centimeter", mkq 1 1)]
+    && base_is (get_base_units faithful default_reg (set_default faithful default_state (Some "imperial")).1
+                 (mkuc [("pound", mkq 1 1); ("gallon", mkq (-1) 1)]) true None).2
+            (mkq 15552 77) [("pound", mkq 1 1); ("yard", mkq (-3) 1)]
+    && compat_is (get_compatible faithful default_reg default_dimeq default_state {[ "meter" := 1%Qc ]} (Some "imperial")).2
+            ["thou"; "inch"; "hand"; "foot"; "yard"; "mile"]
+    && name_is (sys_attr default_reg default_state "imperial" "pint") "imperial_pint"
+    && name_is (sys_attr default_reg default_state "US" "pint") "pint"
+    && name_is (sys_attr default_reg default_state "US" "ton") "US_ton" ) = true.
+Proof. vm_cast_no_check (eq_refl true). Qed.
